@@ -27,14 +27,18 @@ def lblStr (l : List Lbl) : String := " ".intercalate (l.map (fun x => x.1 ++ " 
 
 def fsJudge (caseLine implLine : String) : String :=
   let pc : P (Nat × List Api) := do kw "R"; let r ← nat; kw "OPS"; let ops ← many pApi; pure (r, ops)
-  let pi : P (List Lbl × List (Nat × Nat) × List (Nat × Nat) × List Obs) := do
+  let pi : P (List Lbl × List (Nat × Nat) × List (Nat × Nat) × List Obs × List (Nat × Nat × Nat)) := do
     kw "T"; let tr ← many pLbl
     kw "CL"; let cl ← many (do let a ← nat; let b ← nat; pure (a, b))
     kw "CA"; let ca ← many (do let a ← nat; let b ← nat; pure (a, b))
     kw "I"; let obs ← many pObs
-    pure (tr, cl, ca, obs)
+    kw "DM"; let dm ← many (do let a ← nat; let b ← nat; let c ← nat; pure (a, b, c))
+    pure (tr, cl, ca, obs, dm)
   match runP pc caseLine, runP pi implLine with
-  | some (retain, ops), some (tr, cl, _ca, obs) =>
+  | some (retain, ops), some (tr, cl, _ca, obs, dm) =>
+      -- a state file damaged behind the store's back is refused, never handed out (checksum verified)
+      if let some (s, var, _) := dm.find? (fun x => x.2.2 = 2) then
+        s!"bad open-returned-damaged-contents snapshot={s} damage={var}" else
       let info := ops.filterMap (fun a => match a with | .create s i t => some (s, i, t) | _ => none)
       let closedIds := cl.map (·.1)
       let neverFinal := (info.map (·.1)).filter (fun s => !closedIds.contains s)
